@@ -5,7 +5,7 @@ Keeps the change under /verif/seeded/<prop>-<name>/ with meta.json."""
 import json, os, shutil, subprocess, sys, time
 prop, wt, name, demo_dir, run_re = sys.argv[1:6]
 extra = sys.argv[6:]
-src = f"{wt}/seeded/{name}"
+src = f"{wt}/seeded/{name}" if wt != "-" else f"/verif/seeded/{prop}-{name}"
 env = dict(os.environ, GOFLAGS="-mod=mod", GOPROXY="off", GOSUMDB="off", GOTOOLCHAIN="local")
 def sh(cmd, cwd, timeout=900):
     p = subprocess.run(cmd, shell=True, cwd=cwd, env=env, capture_output=True, text=True, timeout=timeout)
@@ -68,6 +68,7 @@ meta["needs_to_manifest"] = notes[:1500]
 dst = f"/verif/seeded/{prop}-{name}"
 os.makedirs(dst, exist_ok=True)
 for f in ("patch.diff", "demo_test.go", "notes.md"):
-    shutil.copy(f"{src}/{f}", f"{dst}/{f}")
+    if os.path.abspath(src) != os.path.abspath(dst):
+        shutil.copy(f"{src}/{f}", f"{dst}/{f}")
 json.dump(meta, open(f"{dst}/meta.json", "w"), indent=1)
 print(prop, name, "confirmed" if ok_keep else "NOT-CONFIRMED", {k: v["exit"] for k, v in results.items()}, meta.get("demo_with_change"), meta.get("suite_with_change"))
